@@ -34,6 +34,8 @@ def make_value(ctx, kind, name):
     """fresh symbolic value of `kind` named `name`"""
     if callable(kind) and not isinstance(kind, Kind):
         return kind(ctx, name)
+    if isinstance(kind, tuple) and kind and kind[0] == "tuple":
+        return tuple(ctx.fresh("%s_%d" % (name, j), "real") for j in range(kind[1]))
     if isinstance(kind, Kind):
         tag, kw = kind.tag, kind.kw
     elif isinstance(kind, tuple):
